@@ -43,3 +43,16 @@ PENDING = ["C01","C02","C03","C04","C05","C06","C07","C08","C09","C10","C11","C1
 for p in PENDING:
     if p not in CLAIMED:
         NOT_APPLICABLE[p] = "no check registered yet in this revision (work in progress; see DESIGN.md for the planned obligations)"
+CLAIMED["C14"] = dict(
+   text="CRC32/CRC64: every table entry vs the bit-at-a-time polynomial definition, the table byte step vs eight "
+        "bit steps for all (register, byte), GF(2)-linearity of tables, the real generic functions vs the "
+        "slice-by-8/slice-by-4 formula over the same tables for concrete (alignment, length) cases, end-to-end "
+        "vs the bitwise definition with chaining for short buffers, and memory safety for every length/alignment "
+        "with an exact-size buffer. SHA-256: buffering/padding as two inductive steps from an arbitrary state "
+        "with the compression function replaced by a block logger; check-interface dispatch and sizes. The "
+        "conjunction implies the property given the stated linear-algebra composition lemma (DESIGN.md C14).",
+   note="NOT covered (measured: no solver verdict): full-width generic==bitwise equivalence as one query, the "
+        "SHA-256 compression function, CLMUL/ARM64/LoongArch/assembly CRC variants (so 'all build variants agree' "
+        "is not decided). Structure cases are a sample of (alignment, length) pairs, not all.")
+PENDING.remove("C14") if "C14" in PENDING else None
+NOT_APPLICABLE.pop("C14", None)
